@@ -80,6 +80,7 @@ func (s *Scenario) Filtered(k *rdbx.Key) bool {
 type Outcome struct {
 	Err      error
 	Returned bool
+	Slow     bool // not returned after 15 min but still making progress (inconclusive, not a hang)
 	Final    []fakeredis.DB
 	Apps     []fakeredis.App
 	Reqs     []fakeredis.Req
@@ -186,13 +187,45 @@ func Run(sc *Scenario, hooks func(srv *fakeredis.Server, cancel context.CancelFu
 	out.T0 = time.Now().UnixMilli()
 	done := make(chan error, 1)
 	go func() { done <- ss.Out.Send(ctx, f) }()
-	select {
-	case err := <-done:
-		out.Err = err
-		out.Returned = true
-	case <-time.After(75 * time.Second):
-		// the shard supervisor classifies a hang; here just report
-		out.Returned = false
+	// A replay that has not returned after 75 s is either slow (large values, loaded machine) or
+	// hung.  That is decided on logical progress, not on the clock: as long as the double keeps
+	// receiving requests or the feeder keeps handing out bytes the replay is alive and is waited
+	// for (up to 15 min); two consecutive 3 s windows without any progress = hung.
+	wait := 75 * time.Second
+	idle := 0
+	startWait := time.Now()
+waitLoop:
+	for {
+		select {
+		case err := <-done:
+			out.Err = err
+			out.Returned = true
+			break waitLoop
+		case <-time.After(wait):
+		}
+		seq1, h1 := srv.Seq(), f.Handed()
+		select {
+		case err := <-done:
+			out.Err = err
+			out.Returned = true
+			break waitLoop
+		case <-time.After(3 * time.Second):
+		}
+		if srv.Seq() == seq1 && f.Handed() == h1 {
+			idle++
+		} else {
+			idle = 0
+		}
+		if idle >= 2 {
+			out.Returned = false // hung: no request and no byte consumed for two windows
+			break
+		}
+		if time.Since(startWait) > 15*time.Minute {
+			out.Returned = false
+			out.Slow = true // still progressing: inconclusive, not a hang
+			break
+		}
+		wait = 3 * time.Second
 	}
 	out.T1 = time.Now().UnixMilli()
 	out.Final = srv.Snapshot()
